@@ -4,10 +4,10 @@
 //! StackMapTable without rows), flags-only attributes, the same attribute at every level, and an
 //! annotations attribute occurring twice in one item.  Built by editing the raw structure of a base
 //! class (`fbh::classfile::raw`: parse, edit, byte-exact write).
-use fbh::classfile::raw::{self, AttrInfo, Attribute, Const, RawClass};
+use fbh::classfile::raw::{self, AttrInfo, Attribute, Const, LineNumber, LocalVar, RawClass};
 use fbh::prng::Rng;
 
-pub const KINDS: [&str; 7] = ["empty-annotations", "empty-lists", "empty-debug-tables", "flags-only", "signature-everywhere", "dup-annotations", "mixed-debug-tables"];
+pub const KINDS: [&str; 9] = ["empty-annotations", "empty-lists", "empty-debug-tables", "flags-only", "signature-everywhere", "dup-annotations", "mixed-debug-tables", "reordered-debug-tables", "cldc-stackmap"];
 
 fn utf8(c: &mut RawClass, s: &str) -> u16 {
 	for (i, e) in c.pool.iter().enumerate() {
@@ -90,6 +90,94 @@ pub fn edit(rng: &mut Rng, c: &mut RawClass, kind: &str) -> bool {
 					}
 				}
 			});
+		}
+		"reordered-debug-tables" => {
+			// The JVMS fixes no attribute order and allows several LineNumberTable / LocalVariableTable /
+			// LocalVariableTypeTable attributes per Code; javac, ASM and duke's own writer always emit one table
+			// followed by one type table.  Here the ROWS of a Code's tables are redistributed over several
+			// attributes in other orders: type table before table, one attribute per row interleaved, halves
+			// alternating, a type table in between two tables.
+			let names = ["LocalVariableTable", "LocalVariableTypeTable", "LineNumberTable"];
+			let idx: Vec<u16> = names.iter().map(|n| utf8(c, n)).collect();
+			let sigs = [utf8(c, "Ljava/util/List<Ljava/lang/String;>;"), utf8(c, "TT;"), utf8(c, "[TE;")];
+			for_each_list(c, &mut |level, attrs| {
+				if level != 3 { return; }
+				let (mut lvt, mut lvtt, mut lnt): (Vec<LocalVar>, Vec<LocalVar>, Vec<LineNumber>) = (vec![], vec![], vec![]);
+				for a in attrs.iter() {
+					match &a.info {
+						AttrInfo::LocalVariableTable(v) => lvt.extend(v.iter().copied()),
+						AttrInfo::LocalVariableTypeTable(v) => lvtt.extend(v.iter().copied()),
+						AttrInfo::LineNumberTable(v) => lnt.extend(v.iter().copied()),
+						_ => {}
+					}
+				}
+				if lvt.is_empty() && lvtt.is_empty() { return; }
+				// a Code with a table only: type-table rows for some of the same variables (as for generic locals)
+				if lvtt.is_empty() {
+					for r in lvt.iter() { if rng.chance(1, 2) { lvtt.push(LocalVar { descriptor_index: *rng.pick(&sigs), ..*r }); } }
+					if lvtt.is_empty() { lvtt.push(LocalVar { descriptor_index: sigs[0], ..lvt[0] }); }
+				}
+				attrs.retain(|a| !matches!(a.info, AttrInfo::LocalVariableTable(_) | AttrInfo::LocalVariableTypeTable(_)));
+				let t = |rows: &[LocalVar]| attr(idx[0], names[0], AttrInfo::LocalVariableTable(rows.to_vec()));
+				let tt = |rows: &[LocalVar]| attr(idx[1], names[1], AttrInfo::LocalVariableTypeTable(rows.to_vec()));
+				let mut seq: Vec<Attribute> = match rng.below(5) {
+					0 => vec![tt(&lvtt), t(&lvt)],
+					1 => { let mut s: Vec<Attribute> = lvt.iter().map(|r| t(&[*r])).chain(lvtt.iter().map(|r| tt(&[*r]))).collect(); rng.shuffle(&mut s); s }
+					2 => { let (a, b) = (lvt.len() / 2, lvtt.len() / 2); vec![tt(&lvtt[..b]), t(&lvt[..a]), tt(&lvtt[b..]), t(&lvt[a..])] }
+					3 => { let a = lvt.len() / 2; vec![t(&lvt[..a]), tt(&lvtt), t(&lvt[a..])] }
+					_ => { let b = (lvtt.len() + 1) / 2; vec![tt(&lvtt[..b]), t(&lvt), tt(&lvtt[b..])] }
+				};
+				// sometimes the line numbers too: one attribute per row group, rows kept in order or reversed
+				if lnt.len() > 1 && rng.chance(1, 2) {
+					attrs.retain(|a| !matches!(a.info, AttrInfo::LineNumberTable(_)));
+					let k = rng.range(1, lnt.len() - 1);
+					let mut parts = vec![attr(idx[2], names[2], AttrInfo::LineNumberTable(lnt[k..].to_vec())), attr(idx[2], names[2], AttrInfo::LineNumberTable(lnt[..k].to_vec()))];
+					if rng.chance(1, 2) { parts.reverse(); }
+					seq.extend(parts);
+					if rng.chance(1, 2) { rng.shuffle(&mut seq); }
+				}
+				// relative order of `seq` is kept; the other attributes of the Code stay where they are
+				let mut pos: Vec<usize> = (0..seq.len()).map(|_| rng.below(attrs.len() + 1)).collect();
+				pos.sort();
+				for (k, (p, a)) in pos.into_iter().zip(seq).enumerate() { attrs.insert(p + k, a); }
+				changed = true;
+			});
+		}
+		"cldc-stackmap" => {
+			// the pre-Java-6 / CLDC `StackMap` attribute (explicit offsets, entries in any order) instead of a StackMapTable:
+			// the reader has an arm of its own for it, governed by the same interest flag (stack_map_table)
+			let idx = utf8(c, "StackMap");
+			for_each_list(c, &mut |level, attrs| {
+				if level != 3 || has(attrs, "StackMap") || has(attrs, "StackMapTable") || !rng.chance(2, 3) { return; }
+				changed = true; // the offsets are filled in below (they need the code array)
+				put(rng, attrs, attr(idx, "StackMap", AttrInfo::Unknown(vec![])));
+			});
+			if changed {
+				for m in c.methods.iter_mut() {
+					for a in m.attributes.iter_mut() {
+						let AttrInfo::Code(code) = &mut a.info else { continue };
+						let pcs: Vec<u32> = raw::decode_code(&code.code).map(|v| v.iter().map(|(pc, _)| *pc).collect()).unwrap_or_else(|_| vec![0]);
+						for ca in code.attributes.iter_mut() {
+							if ca.name != "StackMap" { continue; }
+							// 0..3 entries at instruction offsets, written in descending, ascending or mixed order; locals / stack of Top / Integer / Null items
+							let n = rng.below(4).min(pcs.len());
+							let mut offs: Vec<u32> = vec![];
+							while offs.len() < n { let o = *rng.pick(&pcs); if !offs.contains(&o) { offs.push(o); } }
+							match rng.below(3) { 0 => offs.sort(), 1 => { offs.sort(); offs.reverse(); } _ => {} }
+							let mut b: Vec<u8> = (offs.len() as u16).to_be_bytes().to_vec();
+							for o in offs {
+								b.extend((o as u16).to_be_bytes());
+								for _ in 0..2 {
+									let k = rng.below(3);
+									b.extend((k as u16).to_be_bytes());
+									for _ in 0..k { b.push(*rng.pick(&[0u8, 1, 5])); }
+								}
+							}
+							ca.info = AttrInfo::Unknown(b);
+						}
+					}
+				}
+			}
 		}
 		"flags-only" => {
 			let (d, s) = (utf8(c, "Deprecated"), utf8(c, "Synthetic"));
